@@ -58,6 +58,7 @@ void SelectLoop::runLoop(Mode mode)
         }
 
         int select_ret = ::select(nfds, &read_set, &write_set, &except_set, p_tv);
+        int select_errno = errno;   //! the timer callbacks below may change errno
         wait_serial_ = fd_data_serial_;
 
         RECORD_SCOPE();
@@ -75,15 +76,15 @@ void SelectLoop::runLoop(Mode mode)
                     SelectFdEvent::OnEventCallback(is_readable, is_writable, is_except, this, fd);
             }
         } else if (select_ret == -1) {
-            if (errno == EBADF) {
+            if (select_errno == EBADF) {
                 removeInvalidFds();
 
-            } else if (errno != EINTR) {
-                LogErrno(errno, "select error");
+            } else if (select_errno != EINTR) {
+                LogErrno(select_errno, "select error");
                 break;
 
             } else {
-                LogNotice("select errno:%d(%s)", errno, strerror(errno));
+                LogNotice("select errno:%d(%s)", select_errno, strerror(select_errno));
             }
         }
 
